@@ -199,11 +199,14 @@ Lemma in_all_kinds k : In k all_kinds.
 Proof. destruct k; simpl; auto 6. Qed.
 
 Lemma tables_ok_parts k : all_tables_ok = true ->
-  tables_symmetric k = true /\ dict_tables_ok k = true /\ absent_ok k = true.
+  tables_symmetric k = true /\ dict_tables_ok k = true /\ absent_ok k = true /\ absent_none k = true.
 Proof.
   intro H. unfold all_tables_ok in H. rewrite forallb_forall in H. specialize (H k (in_all_kinds k)).
-  apply andb_true_iff in H as [H H3]. apply andb_true_iff in H as [H1 H2]. auto.
+  apply andb_true_iff in H as [H H4]. apply andb_true_iff in H as [H H3]. apply andb_true_iff in H as [H1 H2]. auto.
 Qed.
+
+(* from here on the table check is a black box *)
+Local Opaque all_tables_ok.
 
 Lemma node_id_not_written k a p :
   tables_symmetric k = true -> dict_tables_ok k = true -> to_props k a = Ok p -> node_id_of p = None.
@@ -221,14 +224,13 @@ Qed.
 Theorem dict_roundtrip_generic : all_tables_ok = true -> forall t, RT t.
 Proof.
   intro Hok. apply tree_ind'. intros k nid a c n i Hc Hn Hi Hwf.
-  destruct (tables_ok_parts k Hok) as [Hs [Hd _]].
-  simpl in Hwf. repeat rewrite andb_true_iff in Hwf. destruct Hwf as [[[[Ha Hnorm] Hsc] Hsn] Hsi].
+  destruct (tables_ok_parts k Hok) as [Hs [Hd [_ Hnone]]].
+  simpl in Hwf. repeat rewrite andb_true_iff in Hwf. destruct Hwf as [[[Ha Hsc] Hsn] Hsi].
   destruct (slot_rt _ _ c Hc Hsc) as [c' [Hc1 Hc2]].
   destruct (slot_rt _ _ n Hn Hsn) as [n' [Hn1 Hn2]].
   destruct (slot_rt _ _ i Hi Hsi) as [i' [Hi1 Hi2]].
-  assert (Hrt := props_roundtrip_generic k a Hs Ha).
+  assert (Hrt := props_roundtrip_exact_generic k a Hs Hnone Ha).
   destruct (to_props k a) as [p|] eqn:Ep; [|discriminate]. simpl in Hrt.
-  rewrite (normalize_normal k a Hnorm) in Hrt.
   exists (DD p (kidsof c' n' i')). split.
   - rewrite to_dict_eq. rewrite Ep. cbn [bind]. rewrite Hc1, Hn1, Hi1. reflexivity.
   - cbn [t_kind]. rewrite from_dict_eq. rewrite Hrt. cbn [bind].
